@@ -104,6 +104,7 @@ def build(seed, ds_id, tag, bad_locus=None, depth=(8, 16)):
             fh.write("%s\t%d\n" % (s, ds.ploidy[s]))
     with open(os.path.join(root, "parents.txt"), "w") as fh:
         fh.write("S1\t.\t.\nS2\t.\t.\nS3\tS1\tS2\n")
+    ds.inbreeding = [0.0, 0.2][ds_id % 2]
     ds.ploidy_file = os.path.join(root, "ploidy.txt")
     ds.parents_file = os.path.join(root, "parents.txt")
     if bad_locus is not None:
@@ -135,6 +136,8 @@ def argv_for(ds, program, bed=None, hap=None, cores=None, extra=(), mseed=0):
         a += ["--sample-parents", ds.parents_file]
     if program != "call-exact":
         a += MCMC + ["--mcmc-seed", str(mseed)]
+    if program != "call-pedigree" and getattr(ds, "inbreeding", 0.0):
+        a += ["--inbreeding", repr(ds.inbreeding)]
     if cores is not None:
         a += ["--cores", str(cores)]
     a += list(extra)
